@@ -203,3 +203,53 @@ def run(R: vlib.Run):
                             "impl": (tr[0], [(b[0], b[1], b[2].tolist()) for b in tr[1]])})
     finally:
         shutil.rmtree(d, ignore_errors=True)
+
+
+def scale(R: vlib.Run):
+    """at-scale search (run when something no longer checks, and in the thorough tier): blocks above 16 MiB across a file boundary,
+    item counts above 2**16 / 2**22 / 2**24 per read, hundreds of thousands of blocks, packed depths with millions of samples per block"""
+    from sigpyproc.readers import FilReader
+    nprng = np.random.default_rng(R.seed + 101)
+    d = os.path.join(vlib.SCRATCH, f"c01s_{os.getpid()}")
+    os.makedirs(d, exist_ok=True)
+    table = [
+        (8, 2048, 18000, [9000], [(8500, 100, 17500, 10), (16384, 0, 18000, 0), (17000, 500, 17400, 0)]),
+        (32, 512, 20000, [7000], [(16384, 0, 20000, 0), (9000, 10, 19000, 5)]),
+        (1, 1024, 100000, [35000], [(16384, 0, 100000, 0), (70000, 1000, 98000, 100)]),
+        (8, 1, 300000, [100000, 100001], [(7, 3, 299990, 3), (65536, 0, 300000, 1), (65537, 1, 250000, 0)]),
+        (2, 64, 300000, [], [(70000, 5, 280000, 1000)]),
+        (16, 16, 300000, [123457], [(270000, 0, 300000, 0), (4096, 17, 299000, 96)]),
+    ]
+    try:
+        for nbits, nch, N, splits, plans in table:
+            x = nprng.integers(0, 1 << min(nbits, 8), (N, nch), dtype=np.uint8)
+            paths = filutil.write_fil_set(os.path.join(d, f"s{nbits}"), x, nbits, splits)
+            fil = FilReader(paths)
+            for gulp, start, nsamps, skipback in plans:
+                case = {"nbits": nbits, "nchans": nch, "N": N, "splits": splits, "gulp": gulp, "start": start, "nsamps": nsamps, "skipback": skipback,
+                        "data": f"numpy.random.default_rng({R.seed + 101}) stream, see props/c01.py scale()"}
+                R.tick(case)
+                R.case(("scale", nbits, nch, N, gulp, start, nsamps, skipback), regime="scale")
+                pos, k, bad = start, 0, None
+                try:
+                    for n_r, ii, data in fil.read_plan(gulp=gulp, start=start, nsamps=nsamps, skipback=skipback, quiet=True):
+                        if ii != k or n_r * nch != data.size or n_r > gulp:
+                            bad = f"block {k}: index {ii}, nsamps_r {n_r}, size {data.size}"; break
+                        first = pos - (skipback if k else 0)
+                        want = x[first:first + n_r]
+                        got = np.asarray(data).reshape(n_r, nch)
+                        if want.shape != got.shape or not np.array_equal(got.astype(want.dtype) if nbits < 32 else got, want):
+                            bad = f"block {k} (samples {first}..{first + n_r}) differs from the file contents"; break
+                        pos = first + n_r
+                        k += 1
+                    if bad is None and pos != start + nsamps:
+                        bad = f"blocks end at sample {pos}, requested range ends at {start + nsamps}"
+                except Exception as e:  # noqa: BLE001
+                    bad = f"{type(e).__name__}: {str(e)[:120]} after {k} block(s)"
+                if bad:
+                    R.fail("scale-plan", "read_plan at scale: " + bad, case)
+            del fil, x
+            for p in paths:
+                os.remove(p)
+    finally:
+        shutil.rmtree(d, ignore_errors=True)
